@@ -789,7 +789,11 @@ class _BufferedReceiver:
 
         # Notify _pump()
         if self._put_message_waiter is not None:
-            self._put_message_waiter.set_result(None)
+            # NOTE: the waiter may already have been cancelled along with the
+            #   pump task by a concurrent stop(), before the pump got to
+            #   clear it.
+            if not self._put_message_waiter.done():
+                self._put_message_waiter.set_result(None)
             self._put_message_waiter = None
 
         return message
